@@ -21,7 +21,10 @@ Oracle (implementation only): source is a fixed point of re-creation; the cells'
 the plain Python function's on sample arguments; exec(source) defines a function of the cells'
 name with those values; rename changes nothing but the name token (also for cells that
 override an inherited cells when the base cells is renamed); set_doc changes nothing but the
-docstring and the docstring reads back as given.
+docstring statement and the docstring reads back as given - for every text (quotes, backslashes, control
+characters, line boundaries), every body layout (block, one-line, docstrings of several tokens).
+`quote_docstring` itself is compared with the model's `quoteDocstring` character by character on generated
+strings, and the literal it returns is evaluated by CPython (must be the string) and by the model's lexer.
 """
 import ast
 import importlib.util
@@ -48,13 +51,20 @@ NS_PRELUDE = (
     "class mod:\n    deco = staticmethod(lambda *a, **k: (lambda f: f))\n"
     "def wrap(*a, **k):\n    return [v for v in list(a) + list(k.values()) if callable(v)][0]\n" % G_VALUE)
 
-ODD_BREAKS = "\r\x0b\x0c\x1c\x1d\x1e\x85\u2028\u2029\x00"
 
 
 # ----------------------------------------------------------------------------- protocol
 
+def _needs_u(ch):
+    o = ord(ch)
+    return o < 32 or 127 <= o < 160 or o in (0x2028, 0x2029)
+
+
 def esc(s):
-    return s.replace("\\", "\\\\").replace("\n", "\\n").replace("\t", "\\t").replace("\r", "\\r")
+    s = s.replace("\\", "\\\\").replace("\n", "\\n").replace("\t", "\\t").replace("\r", "\\r")
+    if any(_needs_u(ch) for ch in s):
+        s = "".join("\\u%04x" % ord(ch) if _needs_u(ch) else ch for ch in s)
+    return s
 
 
 def unesc(s):
@@ -63,6 +73,11 @@ def unesc(s):
         c = s[i]
         if c == "\\" and i + 1 < len(s):
             n = s[i + 1]
+            if n == "u" and i + 5 < len(s) + 0 and all(h in "0123456789abcdefABCDEF" for h in s[i + 2:i + 6]) \
+                    and len(s[i + 2:i + 6]) == 4:
+                out.append(chr(int(s[i + 2:i + 6], 16)))
+                i += 6
+                continue
             out.append({"n": "\n", "t": "\t", "r": "\r", "\\": "\\"}.get(n, n))
             i += 2
         else:
@@ -236,6 +251,21 @@ def gen_doc(rng, c, block):
     """(opn, content lines, cls)"""
     style = rng.randrange(9)
     first = rng.choice(DOC_WORDS)
+    if rng.random() < 0.15:
+        # a docstring of several tokens: implicit concatenation, parentheses, over one or several lines
+        # (structure: opn = up to and including the first quote, cls = from the last quote on)
+        c.features.add("doc_compound")
+        k = rng.randrange(5 if block else 3)
+        a, b = first.replace("'", "").replace('"', ""), rng.choice(DOC_WORDS).replace("'", "").replace('"', "")
+        if k == 0:
+            return ("'", [a + "' " + rng.choice(["", " ", "r"]) + '"' + b], '"')
+        if k == 1:
+            return ("('", [a], "')")
+        if k == 2:
+            return ("( '", [a + "' '" + b], "' )")
+        if k == 3:
+            return ("('", [a + "'", "", "# comment inside", "  '" + b], "')")
+        return ('"', [a + '" \\', c.ind + "  '" + b], "'")
     if not block or style < 3:
         q, pfx = rng.choice([('"', ""), ("'", ""), ("'", "u"), ('"', "r"), ('"""', ""), ("'''", ""), ('"""', "R")])
         txt = first.replace(q[0], "")
@@ -457,19 +487,33 @@ def gen_lam(rng, name=None):
     return c
 
 
-DOCS_SAFE = ["new doc", "", "Summary.\n\nDetails follow\n    indented\n", "it's \"quoted\" inside", "a # b",
-             "multi\nline", "\n  leading newline\n  ", "caf\u00e9 \u4e2d", "ends with '", "x = '''y'''"]
+DOCS_PLAIN = ["new doc", "", "Summary.\n\nDetails follow\n    indented\n", "it's \"quoted\" inside", "a # b",
+              "multi\nline", "\n  leading newline\n  ", "caf\u00e9 \u4e2d", "ends with '", "x = '''y'''"]
 DOCS_WSLINE = ["a\n   \nb", "t\n\t\nq"]
-DOCS_UNSAFE = ['ends with "', 'has """ inside', "back\\nslash", "back\\qslash", "trailing\\", "cr\rhere", "ff\x0chere",
-               "ls\u2028here", "nul\x00here", '"""']
+# texts that need escaping: every one of them failed before quote_docstring (2b72506)
+DOCS_ESCAPED = ['ends with "', 'has """ inside', "back\\nslash", "back\\qslash", "trailing\\", "cr\rhere", "ff\x0chere",
+                "ls\u2028here", "nul\x00here", '"""', '""""""" seven', 'a\n"', "crlf\r\nline", "\\", '\\"', "a\\\nb",
+                "\x0b\x1c\x1d\x1e\x85\u2029", "\\x41\\u0041\\N{DASH}\\101", '"',
+                "a\n\xa0\nb", "a\n\x1f\u3000\nb\n \x0c\n"]
+DOC_ALPHABET = ['"', '"', '"', "\\", "\\", "\n", "\n", " ", "\t", "a", "b", "x", "u", "0", "4", "1", "'", "\r", "\x00",
+                "\x0b", "\x0c", "\x1c", "\x1d", "\x1e", "\x1f", "\x85", "\xa0", "\u2028", "\u2029", "\u3000", "\u00e9",
+                "\U0001f600", "#", ";", "n", "r", "N", "{", "}"]
 
 
-def safe_chars(doc):
-    return '"""' not in doc and not doc.endswith('"') and "\\" not in doc
-
-
-def plain_breaks(doc):
-    return not any(ch in doc for ch in ODD_BREAKS)
+def gen_doc_text(rng):
+    """a documentation text biased to what quote_docstring must handle: runs of quotes, backslashes before
+    quotes / newlines / escape letters, every line boundary, a quote or backslash at the very end"""
+    n = rng.choice([0, 1, 2, 3, 5, 8, 13, 21])
+    out = []
+    for _ in range(n):
+        k = rng.random()
+        if k < 0.25:
+            out.append('"' * rng.randrange(1, 8))
+        elif k < 0.35:
+            out.append("\\" * rng.randrange(1, 4))
+        else:
+            out.append(rng.choice(DOC_ALPHABET))
+    return "".join(out)
 
 
 def has_ws_only_middle_line(doc):
@@ -505,7 +549,14 @@ def gen_history(rng, index):
             h["ops"].append(["rename", names.pop() if names else "again"])
         elif k < 0.85:
             p = rng.random()
-            doc = rng.choice(DOCS_SAFE) if p < 0.8 else (rng.choice(DOCS_WSLINE) if p < 0.9 else rng.choice(DOCS_UNSAFE))
+            if p < 0.45:
+                doc = rng.choice(DOCS_PLAIN)
+            elif p < 0.53:
+                doc = rng.choice(DOCS_WSLINE)
+            elif p < 0.75:
+                doc = rng.choice(DOCS_ESCAPED)
+            else:
+                doc = gen_doc_text(rng)
             h["ops"].append(["setdoc", rng.randrange(nlev), 1 if rng.random() < 0.3 else 0, doc])
         else:
             h["ops"].append(["recreate", rng.randrange(nlev)])
@@ -583,7 +634,7 @@ def impl_layout_def(text):
     else:
         s = first.first_token.start
         indent = ""
-    e = first.first_token.end if has_doc else s
+    e = first.last_token.end if has_doc else s    # the whole docstring statement is replaced
     return "decos=%s name=%d,%d,%d doc=%s,%s,%d,%d,%d,%d indent=%s" % (
         decos, nt.start[0], nt.start[1], nt.end[1], str(compound).lower(), str(has_doc).lower(),
         s[0], s[1], e[0], e[1], esc(indent))
@@ -625,8 +676,38 @@ def same_but_name(before, after, old, new):
             and before[a[0]:a[1]] == old and after[b[0]:b[1]] == new)
 
 
+def tok_end(t):
+    """the true end (row, column in characters) of a token, from its start and its text - CPython 3.12.1
+    reports a wrong end column for a token that spans lines when non-ASCII characters are involved"""
+    n = t.string.count("\n")
+    if n == 0:
+        return (t.start[0], t.start[1] + len(t.string))
+    return (t.start[0] + n, len(t.string) - t.string.rfind("\n") - 1)
+
+
+def docstring_end_misreported(src):
+    """the tokenizer of this interpreter reports another end for the last token of the def's docstring
+    statement than the token's text has (the trigger of finding C20-multiline-token-endcol)"""
+    try:
+        atok = asttokens.ASTTokens(src, parse=True)
+        node = None
+        for n in ast.walk(atok.tree):
+            if isinstance(n, ast.FunctionDef):
+                node = n
+                break
+        first = node.body[0]
+        if not (isinstance(first, ast.Expr) and isinstance(first.value, ast.Constant)
+                and isinstance(first.value.value, str)):
+            return False
+        t = first.last_token
+        return tuple(t.end) != tok_end(t)
+    except Exception:   # noqa
+        return False
+
+
 def code_tokens(src):
-    """tokens of a def without its docstring statement"""
+    """tokens of a def without its docstring statement: every token of the statement (a docstring may be
+    several tokens: implicit concatenation, parentheses) and the NEWLINE or `;` that ends the statement"""
     tree = ast.parse(src)
     fn = tree.body[0]
     first = fn.body[0]
@@ -634,14 +715,21 @@ def code_tokens(src):
            and isinstance(first.value.value, str))
     toks = [t for t in tokenize.generate_tokens(io.StringIO(src).readline)]
     out = []
-    skip_next_newline = False
+    srclines = src.split("\n")
+
+    def char_col(lineno, byte_col):     # ast columns count UTF-8 bytes, tokenize columns count characters
+        return len(srclines[lineno - 1].encode("utf-8")[:byte_col].decode("utf-8"))
+
+    lo = (first.lineno, char_col(first.lineno, first.col_offset))
+    hi = (first.end_lineno, char_col(first.end_lineno, first.end_col_offset))
+    skip_terminator = False
     for t in toks:
-        if doc and t.type == tokenize.STRING and (t.start[0], t.start[1]) == (first.lineno, first.col_offset):
-            skip_next_newline = True
+        if doc and lo <= tuple(t.start) and tok_end(t) <= hi and t.type not in (tokenize.INDENT, tokenize.DEDENT):
+            skip_terminator = True
             continue
-        if skip_next_newline:
-            skip_next_newline = False
-            if t.type == tokenize.NEWLINE:
+        if skip_terminator:
+            skip_terminator = False
+            if t.type == tokenize.NEWLINE or (t.type == tokenize.OP and t.string == ";"):
                 continue
         if t.type in (tokenize.INDENT, tokenize.DEDENT, tokenize.ENDMARKER):
             out.append((t.type, ""))
@@ -669,6 +757,8 @@ class Stats:
         self.evals = 0
         self.layouts = 0
         self.rejected = {}
+        self.doc_kinds = {}
+        self.quoted = 0
 
     def feat(self, fs):
         for f in fs:
@@ -745,6 +835,8 @@ class Run:
         self.argsets = []
         self.sensitive = []   # per level: string-sensitive case
         self.dedent_refs = []  # per level: values of the function `textwrap.dedent(text)` defines
+        self.split_refs = []   # per level: values of the function that the text cut by str.splitlines() and
+        #                        re-joined with line feeds defines (None unless the text has such a boundary)
         self.stop = False
 
     # -- model-rendered text of a structure
@@ -773,6 +865,8 @@ class Run:
         the function that the DEDENTED text defines"""
         if self.sensitive[lvl] and got == self.dedent_refs[lvl]:
             return "C20-dedent-in-string"
+        if self.split_refs[lvl] is not None and got == self.split_refs[lvl]:
+            return "C20-splitlines-in-body"
         return None
 
     def check_values(self, lvl, when):
@@ -846,7 +940,12 @@ class Run:
                 pass
             elif case.kind == "def":
                 lay_impl = impl_layout_def(text)
-                self.expect(case.op("layout", "def"), lay_impl, "layout")
+                if docstring_end_misreported(textwrap.dedent(text)):
+                    # this interpreter's tokenizer misreports the end of the docstring token: the
+                    # positions are not those of the text; what modelx makes of them is the oracle's business
+                    self.stats.feat(["tokenizer_misreports_docstring_end"])
+                else:
+                    self.expect(case.op("layout", "def"), lay_impl, "layout")
             elif func_obj is None:
                 self.expect(case.op("layout", "lam", "text"), impl_layout_lam(text), "layout")
             else:
@@ -878,6 +977,14 @@ class Run:
                                                 reference_namespace()), argsets)
             except Exception:   # noqa
                 dedent_vals = None
+        split_vals = None
+        if has_other_line_boundary(text) and case.kind in ("def", "raw"):
+            try:
+                ns = reference_namespace()
+                exec(compile("\n".join(textwrap.dedent(text).splitlines()) + "\n", "<splitlines>", "exec"), ns)
+                split_vals = call_all(ns[case.name], argsets)
+            except Exception:   # noqa
+                split_vals = [("does-not-compile", "")]
         # creation on the implementation
         formula = func_obj if func_obj is not None else text
         try:
@@ -890,7 +997,9 @@ class Run:
         except Exception as e:   # noqa
             self.fail("a definition of the grammar was refused (%s)" % type(e).__name__,
                       detail={"text": text, "error": err_kind(e)},
-                      key="C20-underindented-continuation" if (isinstance(e, SyntaxError) and underindented(text)) else None)
+                      key=("C20-underindented-continuation" if (isinstance(e, SyntaxError) and underindented(text))
+                           else "C20-splitlines-in-body" if (isinstance(e, SyntaxError) and split_vals is not None)
+                           else None))
             self.stop = True
             return None
         if case.kind == "raw":
@@ -916,19 +1025,24 @@ class Run:
             self.argsets[lvl] = argsets
             self.sensitive[lvl] = case.string_sensitive
             self.dedent_refs[lvl] = dedent_vals
+            self.split_refs[lvl] = split_vals
         else:
             self.cells.append(c)
             self.refs.append(refvals)
             self.argsets.append(argsets)
             self.sensitive.append(case.string_sensitive)
             self.dedent_refs.append(dedent_vals)
+            self.split_refs.append(split_vals)
         # doc of the original function (robust to indentation)
         try:
             ref_doc = ref.__doc__
         except Exception:   # noqa
             ref_doc = None
         if case.kind in ("def", "raw") and norm_doc(c.doc) != norm_doc(ref_doc):
-            self.fail("cells.doc differs from the function's docstring", detail={"cells": c.doc, "function": ref_doc})
+            self.fail("cells.doc differs from the function's docstring", detail={"cells": c.doc, "function": ref_doc},
+                      key=("C20-splitlines-in-body" if (split_vals is not None and ref_doc is not None and c.doc is not None
+                                                        and norm_doc(c.doc) == norm_doc("\n".join(ref_doc.splitlines())))
+                           else None))
         if tuple(c.parameters) != tuple(inspect.signature(ref).parameters):
             self.fail("cells.parameters differ from the function's parameters",
                       detail={"cells": list(c.parameters), "function": list(inspect.signature(ref).parameters)})
@@ -962,6 +1076,7 @@ class Run:
                 self.argsets.append(self.argsets[i - 1])
                 self.sensitive.append(self.sensitive[i - 1])
                 self.dedent_refs.append(self.dedent_refs[i - 1])
+                self.split_refs.append(self.split_refs[i - 1])
                 if sub["how"] == "derived":
                     self.expect("sub\tderived", "ok", "sub")
                     self.stats.feat(["sub_derived"])
@@ -1024,58 +1139,51 @@ class Run:
         is_lam = c._impl.formula._is_lambda
         src0 = c.formula.source
         others = [(x.formula.source, x.doc) for x in self.cells]
-        unsafe = not (safe_chars(doc) and plain_breaks(doc))
-        one_line_nodoc = False
-        compound_doc = False
-        if not is_lam:
-            compound_doc = compound_docstring(src0)
-            first = ast.parse(src0).body[0].body[0]
-            has_doc = (isinstance(first, ast.Expr) and isinstance(first.value, ast.Constant)
-                       and isinstance(first.value.value, str))
-            one_line_nodoc = (not has_doc) and self._body_on_header_line(src0)
+        misreported = (not is_lam) and docstring_end_misreported(src0)
         err = None
         try:
             with quiet():
                 c.set_doc(doc, insert_indents=bool(ii))
         except Exception as e:   # noqa
             err = e
-        self.expect("setdoc\t%d\t%d\t%s" % (lvl, ii, esc(doc)),
-                    "unsafe" if (unsafe and not is_lam) else ("ok" if err is None else "err " + err_kind(err)),
-                    "setdoc")
-        if unsafe and not is_lam:
-            # outside the model; the oracle decides, then the history ends (states may differ)
-            bad = err is not None or c.doc != doc or code_tokens_safe(c.formula.source) != code_tokens_safe(src0)
+        if misreported:
+            # outside the model (layoutOf states what a correct tokenizer reports): the oracle decides, then
+            # the history ends
+            self.stats.feat(["tokenizer_misreports_docstring_end"])
+            bad = (err is not None or (not ii and c.doc != doc and c.doc != emptied_ws_lines(doc))
+                   or code_tokens_or_none(c.formula.source) != code_tokens_or_none(src0))
             if bad:
-                self.fail("set_doc with a text that is pasted unescaped between triple quotes: %s"
-                          % ("raised " + type(err).__name__ if err else "the docstring read back differs"),
-                          detail={"doc": doc, "read_back": c.doc, "source": c.formula.source},
-                          key="C20-doc-unescaped")
+                self.fail("set_doc on a docstring whose end the tokenizer misreports: %s"
+                          % ("raised " + type(err).__name__ if err else "the source or the docstring is damaged"),
+                          detail={"doc": doc, "before": src0, "after": c.formula.source,
+                                  "python": sys.version.split()[0]},
+                          key="C20-multiline-token-endcol")
             self.stop = True
             return
+        self.expect("setdoc\t%d\t%d\t%s" % (lvl, ii, esc(doc)), "ok" if err is None else "err " + err_kind(err),
+                    "setdoc")
         if err is not None:
-            key = "C20-doc-oneline" if (one_line_nodoc and isinstance(err, SyntaxError)) else None
-            if compound_doc and isinstance(err, SyntaxError):
-                key = "C20-doc-compound-literal"
+            # every text can be a docstring of every definition: a refusal is a violation
             self.fail("set_doc raised %s" % type(err).__name__,
-                      detail={"doc": doc, "source": src0, "error": err_kind(err)}, key=key)
-            # the model predicts the same refusal (bug-faithful); state unchanged on both sides
-            self.obs_all("after refused set_doc")
+                      detail={"doc": doc, "source": src0, "error": err_kind(err)})
+            self.stop = True
             return
         self.obs_all("after set_doc")
-        # -- oracle: nothing but the docstring changed
+        # -- oracle: nothing but the docstring changed, and the docstring is the text
         if not ii:
             if c.doc != doc:
-                key = "C20-dedent-in-string" if (has_ws_only_middle_line(doc) and not is_lam) else None
-                if compound_doc and not has_ws_only_middle_line(doc):
-                    key = "C20-doc-compound-literal"
+                # the only tolerated deviation: whitespace-only lines inside the text emptied by the dedent of
+                # the re-capture (known finding), and nothing else changed
+                key = None
+                if has_ws_only_middle_line(doc) and not is_lam and c.doc == emptied_ws_lines(doc):
+                    key = "C20-dedent-in-string"
                 self.fail("the docstring does not read back as the text that was set",
                           detail={"doc": doc, "read_back": c.doc}, key=key)
         else:
-            if not is_lam and norm_doc(c.doc) != norm_doc(doc) and not has_ws_only_middle_line(doc):
-                # with insert_indents the text is re-indented; compare modulo indentation
-                if True:
-                    self.fail("insert_indents changed more than indentation of the docstring",
-                              detail={"doc": doc, "read_back": c.doc})
+            if not is_lam and unindented(c.doc) != unindented(doc):
+                # with insert_indents the text is re-indented; compare modulo leading blanks of the lines
+                self.fail("insert_indents changed more than indentation of the docstring",
+                          detail={"doc": doc, "read_back": c.doc})
         if is_lam:
             if c.formula.source != src0:
                 self.fail("set_doc changed the source of a lambda cells", detail={"before": src0, "after": c.formula.source})
@@ -1086,22 +1194,22 @@ class Run:
                 same = False
             if not same:
                 self.fail("set_doc changed more than the docstring in formula.source",
-                          detail={"before": src0, "after": c.formula.source, "doc": doc},
-                          key="C20-doc-compound-literal" if compound_doc else None)
+                          detail={"before": src0, "after": c.formula.source, "doc": doc})
         for k, x in enumerate(self.cells):
             if k < lvl and (x.formula.source, x.doc) != others[k]:
                 self.fail("set_doc on a sub space's cells changed the base cells", detail={"level": k})
         self.check_values(lvl, "after set_doc")
         self.check_exec_source(lvl, "after set_doc")
         self.stats.nontrivial.add(("setdoc", bool(ii), is_lam))
+        self.stats.doc_kinds[doc_kind(doc)] = self.stats.doc_kinds.get(doc_kind(doc), 0) + 1
 
-    @staticmethod
-    def _body_on_header_line(src):
-        atok = asttokens.ASTTokens(src, parse=True)
-        fn = atok.tree.body[0]
-        first = fn.body[0]
-        prev = atok.tokens[first.first_token.index - 1]
-        return prev.type != token_mod.INDENT
+
+OTHER_BOUNDARIES = "\x0b\x0c\x1c\x1d\x1e\x85\u2028\u2029"
+
+
+def has_other_line_boundary(text):
+    """a character at which str.splitlines() cuts and the tokenizer does not"""
+    return any(ch in text for ch in OTHER_BOUNDARIES)
 
 
 def underindented(text):
@@ -1113,26 +1221,61 @@ def underindented(text):
     return any(len(l) - len(l.lstrip(" \t")) < n0 for l in ls[1:])
 
 
-def compound_docstring(src):
-    """the docstring statement is more than one STRING token (implicit concatenation, parentheses)"""
-    atok = asttokens.ASTTokens(src, parse=True)
-    first = atok.tree.body[0].body[0]
-    is_doc = (isinstance(first, ast.Expr) and isinstance(first.value, ast.Constant)
-              and isinstance(first.value.value, str))
-    return is_doc and first.first_token.index != first.last_token.index
-
-
-def code_tokens_safe(src):
+def code_tokens_or_none(src):
     try:
         return code_tokens(src)
     except Exception:   # noqa
         return None
 
 
+def unindented(d):
+    return None if d is None else [l.lstrip(" \t") for l in d.split("\n")]
+
+
+def emptied_ws_lines(doc):
+    """the text with the whitespace-only lines strictly inside it emptied (what textwrap.dedent does to them)"""
+    ls = doc.split("\n")
+    return "\n".join([ls[0]] + [("" if l.strip(" \t") == "" else l) for l in ls[1:-1]] + ls[-1:]) if len(ls) > 1 else doc
+
+
+def doc_kind(doc):
+    ks = []
+    if '"""' in doc:
+        ks.append("triple")
+    if doc.endswith('"'):
+        ks.append("final-quote")
+    if "\\" in doc:
+        ks.append("backslash")
+    if any(ch in doc for ch in "\r\x0b\x0c\x1c\x1d\x1e\x85\u2028\u2029\x00"):
+        ks.append("escaped-char")
+    if has_ws_only_middle_line(doc):
+        ks.append("ws-only-line")
+    return "+".join(ks) or "plain"
+
+
+def model_doc_values(line):
+    """the model reports a docstring literal that `replace_docstring` did not write by its source text
+    (`doc~<literal>`): its value is CPython's business - evaluate it here, as the interpreter would"""
+    if "\tdoc~" not in line:
+        return line
+    out = []
+    for entry in line.split(" ;; "):
+        fs = entry.split("\t")
+        for i, f in enumerate(fs):
+            if f.startswith("doc~"):
+                try:
+                    fs[i] = "doc=" + esc(ast.literal_eval(unesc(f[4:])))
+                except Exception:   # noqa
+                    pass
+        out.append("\t".join(fs))
+    return " ;; ".join(out)
+
+
 def compare_lines(run, model_lines, out, layer="capture"):
     for j, (a, b) in enumerate(zip(run.impl_lines, model_lines)):
         if run.tags[j] in ("reset", "create", "sub", "rename") and b == "ok":
             continue
+        b = model_doc_values(b)
         if a != b:
             if run.tags[j].startswith("after") or run.tags[j] == "obs":
                 ea, eb = split_obs(a), split_obs(b)
@@ -1275,6 +1418,47 @@ def run_object_batch(rng, n, out, stats, tmp, batch_id):
     compare_batch(runs, out)
 
 
+# ----------------------------------------------------------------------------- quote_docstring
+
+def run_quote_docs(docs, out, stats):
+    """`quote_docstring` against the model's `quoteDocstring`, character by character; the literal evaluated
+    by CPython (implementation-only oracle: its value is the text; it holds no line boundary other than the
+    line feed, so that the line-based rewriting leaves it alone) and by the model's lexer"""
+    from modelx.core.formula import quote_docstring
+    lines = core.run_driver("capture", ["quote\t" + esc(d) for d in docs]) if docs else []
+    for d, line in zip(docs, lines):
+        h = {"quote": d}
+        q = quote_docstring(d)
+        try:
+            v = ast.literal_eval(q)
+        except Exception as e:   # noqa
+            v = None
+            out.fail("quote_docstring(d) is not a Python literal (%s)" % type(e).__name__, h, detail={"quoted": q})
+        if v is not None and v != d:
+            out.fail("the value of the literal quote_docstring(d) is not d", h, detail={"quoted": q, "value": v})
+        if "\n".join(q.splitlines()) != q or "\x00" in q:
+            out.fail("quote_docstring(d) holds a line boundary other than the line feed, or NUL", h, detail={"quoted": q})
+        try:
+            ns = {}
+            exec(compile("def f():\n    " + q + "\n", "<quoted>", "exec"), ns)
+            if ns["f"].__doc__ != d:
+                out.fail("quote_docstring(d) as the docstring of a def is not d", h,
+                         detail={"quoted": q, "doc": ns["f"].__doc__})
+        except Exception as e:   # noqa
+            out.fail("quote_docstring(d) does not compile as a docstring (%s)" % type(e).__name__, h, detail={"quoted": q})
+        impl = "quoted=%s\tback%s\tclean=%s" % (esc(q), "%none" if v is None else "=" + esc(v),
+                                               str(not has_ws_only_middle_line(d)).lower())
+        if impl != line:
+            out.disagree(h, 0, impl, line, layer="capture")
+        stats.quoted += 1
+        stats.doc_kinds[doc_kind(d)] = stats.doc_kinds.get(doc_kind(d), 0) + 1
+
+
+def run_quote_stream(rng, n, out, stats):
+    docs = DOCS_PLAIN + DOCS_WSLINE + DOCS_ESCAPED + ['"' * k for k in range(1, 9)] + [gen_doc_text(rng) for _ in range(n)]
+    run_quote_docs(docs, out, stats)
+
+
 # ----------------------------------------------------------------------------- malformed stream
 
 MALFORMED = [
@@ -1361,6 +1545,11 @@ def fixed_histories():
     hs.append(raw("def foo(x):\n    'a' 'b'\n    return x\n", "foo", ["x"], [["setdoc", 0, 0, "doc"]]))
     hs.append(raw("def foo(x):\n    ('a')\n    return x\n", "foo", ["x"], [["setdoc", 0, 0, "doc"]]))
     hs.append(raw("    def foo(x):\n        return [\n  x,\n  1]\n", "foo", ["x"], [["rename", "bar"]]))
+    # line boundaries other than the line feed inside the definition (known finding C20-splitlines-in-body)
+    hs.append(raw("def foo(x):\n    t = '''a\x0cb'''\n    return t + str(x)\n", "foo", ["x"], [["rename", "bar"]]))
+    hs.append(raw("def foo(x):\n    return 'a\u2028b' + str(x)  # one line for Python\n", "foo", ["x"], []))
+    hs.append(raw("def foo(x):\n    # page\x0cbreak\n    return x\n", "foo", ["x"], []))
+    hs.append(raw("def foo(x):\n    '''a\x85b'''\n    return x\n", "foo", ["x"], []))
     hs.append(raw("def foo(x, y=2):\n    return x + y  # plain\n", "foo", ["x", "y"],
                   [["rename", "bar"], ["setdoc", 0, 0, "doc"], ["recreate", 0]]))
     return hs
@@ -1397,12 +1586,14 @@ def run(ctx, out):
         for k in [k for k in sys.modules if k.startswith("c20mod_")]:
             del sys.modules[k]
     run_malformed(out, stats)
+    run_quote_stream(ctx.rng("quote"), ctx.n(400, 20000), out, stats)
     nontrivial = sum(1 for h in hists if h["ops"] and (case_from_json(h["base"]).features))
     out.coverage.update({
         "evaluations": stats.evals,
         "distinct_nontrivial": nontrivial,
         "rule": "histories = one generated definition layout (def or lambda, text) + optional sub spaces that derive or "
-                "override + 1-4 edits (rename / set_doc / re-creation); non-trivial = the layout has at least one "
+                "override + 1-4 edits (rename / set_doc with plain, escaped-character and generated texts / "
+                "re-creation); non-trivial = the layout has at least one "
                 "grammar feature beyond a plain def and at least one edit; evaluations = calls of cells compared with the "
                 "plain Python function",
         "samples": stats.samples,
@@ -1410,7 +1601,9 @@ def run(ctx, out):
         "input_distribution": {"features": dict(sorted(stats.features.items())), "ops": stats.ops,
                                "edit_kinds_seen": sorted(map(str, stats.nontrivial)),
                                "layouts_compared_with_asttokens": stats.layouts,
-                               "object_cases": n_obj_batches * 8, "malformed": stats.rejected},
+                               "object_cases": n_obj_batches * 8, "malformed": stats.rejected,
+                               "docstring_texts_by_kind": dict(sorted(stats.doc_kinds.items())),
+                               "quote_docstring_strings": stats.quoted},
     })
     out.assumptions.append(
         "that the captured text behaves like the original function is Python's semantics: sampled on 3-4 argument "
@@ -1425,6 +1618,9 @@ def replay(ctx, payload, out):
         return
     if "malformed" in h:
         run_malformed(out, stats)
+        return
+    if "quote" in h:
+        run_quote_docs([h["quote"]], out, stats)
         return
     if h.get("via") == "object":
         tmp = tempfile.mkdtemp(prefix="mxh_c20_")
